@@ -17,7 +17,8 @@ import itertools
 
 from vf.iodoubles import (FULL, ZERO, PARTIAL, ERR, DATA, WOULDBLOCK, WANT_READ, WANT_WRITE,
                           FakeSocket, FakeContext, FakeSerialServer, RecWireLog, UniqueBytes,
-                          enum_send_scripts, enum_recv_scripts, item_name, parse_wirelog)
+                          enum_send_scripts, enum_recv_scripts, item_name, parse_wirelog,
+                          client_on_double, incomer_on_double, PEER, NEAR)
 
 LEVEL = "fault_enumeration"
 RULE = ("per transport class (Client, ClientTls, Incomer, IncomerTls, serial Driver): every queue of 1..M messages of "
@@ -33,8 +34,6 @@ META = {"engine": "D I/O doubles", "technique": "fault enumeration on socket dou
         "level_note": "trusts the doubles to behave like a non-blocking socket (result <= len(data)); real kernels are "
                       "not involved; sequences beyond the bound are only sampled"}
 
-PEER = ("127.0.0.1", 6000)
-NEAR = ("127.0.0.1", 5000)
 
 
 class Transport(object):
@@ -68,26 +67,12 @@ def _wlogs():
     return wl
 
 
-def _clock():
-    from ioflo.aid.timing import Stamper
-    return Stamper(stamp=0.0)
-
-
 class TClient(Transport):
     name = "Client"
     tls = False
 
     def make(self, wlog):
-        from ioflo.aio.tcp import clienting
-        fake = FakeSocket(sockname=NEAR, peername=PEER, defaults={"recv": self.blocks[0]})
-        kw = dict(ha=PEER, wlog=wlog, store=_clock())
-        if self.tls:
-            obj = clienting.ClientTls(context=FakeContext(), **kw)
-        else:
-            obj = clienting.Client(**kw)
-        obj.cs = fake                      # documented attribute: connection socket
-        if not obj.connect():
-            raise RuntimeError("double did not connect")
+        obj, fake = client_on_double(tls=self.tls, wlog=wlog)
         return obj, fake, PEER
 
 
@@ -102,15 +87,7 @@ class TIncomer(Transport):
     tls = False
 
     def make(self, wlog):
-        from ioflo.aio.tcp import serving
-        fake = FakeSocket(sockname=NEAR, peername=PEER, defaults={"recv": self.blocks[0]})
-        kw = dict(ha=NEAR, bs=8096, ca=PEER, cs=fake, wlog=wlog, store=_clock())
-        if self.tls:
-            obj = serving.IncomerTls(context=FakeContext(), **kw)
-            if not obj.serviceHandshake():
-                raise RuntimeError("double did not handshake")
-        else:
-            obj = serving.Incomer(**kw)
+        obj, fake = incomer_on_double(tls=self.tls, wlog=wlog)
         return obj, fake, PEER
 
 
